@@ -132,6 +132,47 @@ func AnalyseStructCopy(fn *ssa.Function, st *types.Named, dstIsResult bool) (map
 			}
 		}
 	})
+	// delegation: the copy (or part of it) is done by a method of the same type called
+	// on the destination (d.assignFrom(src)): the callee is analysed restore-style
+	// (destination = its receiver) and its fields are merged.
+	Instrs(fn, false, func(in ssa.Instruction) {
+		call, ok := in.(ssa.CallInstruction)
+		if !ok {
+			return
+		}
+		callee := call.Common().StaticCallee()
+		if callee == nil || callee == fn || callee.Blocks == nil || !InModule(callee) || len(call.Common().Args) < 2 {
+			return
+		}
+		if len(callee.Params) == 0 || !isSt(callee.Params[0].Type()) || !isDst(call.Common().Args[0]) {
+			return
+		}
+		hasSrc := false
+		for _, a := range call.Common().Args[1:] {
+			if isSt(a.Type()) {
+				hasSrc = true
+			}
+		}
+		if !hasSrc {
+			return
+		}
+		sub, err := AnalyseStructCopy(callee, st, false)
+		if err != nil {
+			return
+		}
+		for name, sc := range sub {
+			if !sc.Assigned {
+				continue
+			}
+			fc := out[name]
+			fc.Assigned = true
+			fc.FromSame = fc.FromSame || sc.FromSame
+			fc.Alias = fc.Alias || sc.Alias
+			fc.Fresh = sc.Fresh
+			fc.Pos = sc.Pos
+			fc.Detail = "via " + FuncName(callee)
+		}
+	})
 	return out, nil
 }
 
